@@ -13,7 +13,7 @@ from pyvc import solve, libattr, paths as pathsmod
 from pyvc.report import native
 from pyvc.values import *  # noqa
 from pyvc.interp import DefaultPolicy
-from pyvc.libops import OpaqueVal, OpaqueFloat, and_const, values_equal
+from pyvc.libops import OpaqueVal, OpaqueFloat, Instant, and_const, values_equal
 
 MOD = 'pykdebugparser.os_log_event'
 FQ = MOD + ':OsLogEvent.from_raw_log_event'
@@ -32,6 +32,7 @@ OPTIONAL = {
     'lsutz': ('loss_start_unix_timezone', 'tz'), 'leutz': ('loss_end_unix_timezone', 'tz'),
     'bt': ('backtrace', 'bt'), 'lc': ('loss_count', 'lc'), 'dm': ('decomposed_message', 'dm'), 'ti': ('trace_identifier', 'ti'),
 }
+MAX_SEC = 253402300799       # 9999-12-31T23:59:59Z
 MANDATORY = {'cm': ('composed_message', 'str'), 't': ('type_', 'int'), 's': ('size', 'int'), 'tid': ('thread_identifier', 'int'),
              'ns': ('continuous_nanoseconds_since_boot', 'int'), 'mct': ('mach_continuous_timestamp', 'int'),
              'b': ('boot_uuid', 'int'), 'piu': ('process_image_uuid', 'int')}
@@ -64,6 +65,8 @@ def raw_event(ctx):
     for k in MANDATORY:
         put(k, SInt(z3.Int('raw.' + k)), False)
     put('ud', PDict([('sec', SInt(z3.Int('raw.ud.sec'))), ('usec', SInt(z3.Int('raw.ud.usec')))]), False)
+    # in-range date: within datetime's range (years 1970..9999), microseconds below 10^6
+    ctx.facts.append(z3.And(z3.Int('raw.ud.sec') >= 0, z3.Int('raw.ud.sec') <= MAX_SEC, z3.Int('raw.ud.usec') >= 0, z3.Int('raw.ud.usec') < 1000000))
     put('utz', PDict([('mw', SInt(z3.Int('raw.utz.mw'))), ('dt', SInt(z3.Int('raw.utz.dt')))]), False)
     for k, (f, kind) in OPTIONAL.items():
         if kind in ('int', 'str') or kind.startswith('enum'):
@@ -132,8 +135,24 @@ def verify_main(run, tier):
             ctx.oblige(prefix + '/mandatory.unix_timezone.values', z3.And(same(tz.d['minutes_west'][1], vals['utz'].d['mw'][1]),
                                                                            same(tz.d['dst_time'][1], vals['utz'].d['dt'][1])))
         ud = f['unix_date']
-        okud = isinstance(ud, OpaqueVal) and ud.kind == 'datetime' and isinstance(ud.args[1], OpaqueVal) and ud.args[1].args == ('utc',)
-        ctx.oblige(prefix + '/mandatory.unix_date.is-a-utc-instant-of-the-records-date', z3.BoolVal(bool(okud)))
+        sec, usec = z3.Int('raw.ud.sec'), z3.Int('raw.ud.usec')
+        is_utc = lambda tz: isinstance(tz, OpaqueVal) and tz.args == ('utc',)
+        if isinstance(ud, Instant):
+            # exact integer arithmetic (fromtimestamp(int) + timedelta): the instant in microseconds since the epoch
+            ctx.oblige(prefix + '/mandatory.unix_date.is-the-utc-instant-sec*10^6+usec', z3.And(z3.BoolVal(is_utc(ud.tz)), ud.us == sec * 1000000 + usec))
+        elif isinstance(ud, OpaqueVal) and ud.kind == 'datetime' and is_utc(ud.args[1]) and isinstance(ud.args[0], OpaqueFloat):
+            # a float timestamp: decided under the IEEE-754 error model (pyvc/floatmodel.py), assumed contract of fromtimestamp
+            from pyvc import floatmodel
+            try:
+                hyp, goals = floatmodel.fromtimestamp_goals(ud.args[0], sec, usec)
+            except Unsupported as ex:
+                ctx.oblige(prefix + '/mandatory.unix_date.is-the-utc-instant-sec*10^6+usec', z3.BoolVal(False))
+                goals = []
+            for h in hyp if goals else []:
+                ctx.assume(h)
+            ctx.oblige(prefix + '/mandatory.unix_date.is-the-utc-instant-sec*10^6+usec', z3.And([g for _, g in goals]) if goals else z3.BoolVal(False))
+        else:
+            ctx.oblige(prefix + '/mandatory.unix_date.is-the-utc-instant-sec*10^6+usec', z3.BoolVal(False))
         for k, (fld, kind) in OPTIONAL.items():
             g = present[k]
             name = '%s/optional.%s' % (prefix, fld)
@@ -350,7 +369,8 @@ def run_check(run, tier):
                     'construct declaration interpreter (Struct, Byte, BitStruct, Flag, BitsInteger, Padding, Int32ul, Int64ul.build)',
                     'firehose_tracepoint_id bit layout written from XNU libkern/firehose/firehose_types_private.h']
     run.assumptions += ['every string index a record references is present in the string index; enum-typed values are ones the format defines',
-                        'unix_date = datetime.fromtimestamp(sec + usec/10**6, utc): floating point is outside the family (bounded native stand-in)',
+                        'datetime.fromtimestamp(int, utc) and datetime + timedelta are exact microsecond arithmetic within datetime range (assumed contract); a float date is decided under the assumed IEEE-754 error model of pyvc/floatmodel.py',
+                        'in-range date: 0 <= sec <= 253402300799 (year 9999), 0 <= usec < 10^6',
                         ]
     verify_main(run, tier)
     verify_trace_identifier(run, tier)
@@ -362,7 +382,7 @@ def run_check(run, tier):
 def finish(run):
     out = native({'kind': 'log_search', 'seed': run.seed, 'budget': 400 if run.tier == 'quick' else 5000}, timeout=600)
     run.bounded.append({'what': 'BOUNDED native stand-in: random raw log records (optional-key subsets, decomposed-message shapes, '
-                                'timestamps at second/microsecond boundaries) against spec/logrecord.py', 'records_tried': out.get('tried'),
+                                'a date grid up to year 9999) against spec/logrecord.py', 'records_tried': out.get('tried'),
                         'bound': out.get('bound'), 'found': bool(out.get('found'))})
     found = out.get('found')
     if found and not run.pending_failures:
@@ -406,10 +426,14 @@ def concretize(model):
         return {'kind': 'log_segment_case', 'segment': seg}
     keys = [k for k in OPTIONAL if tv(z3.Bool('has.' + k))]
     ti = solve.model_int(model, z3.Int('raw.ti'))
-    if not keys:
+    names = set(str(d) for d in model.decls())
+    ud = None
+    if 'raw.ud.sec' in names:
+        ud = {'sec': max(0, min(MAX_SEC, solve.model_int(model, z3.Int('raw.ud.sec')))), 'usec': solve.model_int(model, z3.Int('raw.ud.usec')) % 1000000}
+    if not keys and 'raw.ud.sec' not in names:
         tiw = solve.model_int(model, z3.Int('ti'))
         return {'kind': 'log_case', 'keys': ['ti'], 'ti': tiw}
-    return {'kind': 'log_case', 'keys': keys, 'ti': ti}
+    return {'kind': 'log_case', 'keys': keys, 'ti': ti, 'ud': ud}
 
 
 def verify_segment(run, tier):
